@@ -21,6 +21,9 @@ EXTENDS Naturals, FiniteSets, Sequences
 CONSTANTS Threads, MaxCalls
 None == 0
 ThreadNaming == {"distinct", "shared"}
+\* ThreadIdentities: the elements of `Threads` are whole identities - two live threads are different however much of
+\* their (64-bit) identifiers agrees; the harness parks a pool of live threads with large stacks, whose identifiers are
+\* far apart - some by a multiple of 4 GiB - lets one become the owner and offers TryCreate to every other one
 \* every way of making a store is the same TryCreate: the factory methods create / open / append, a subclass, and the
 \* public constructor called directly
 EntryPoints == {"factory", "subclass", "constructor"}
